@@ -138,6 +138,10 @@ def run_tlc(module, cfg, workdir, workers=8, timeout=900, simulate=None, depth=N
         res.violation = m.group(1) if m else "violated"
         k = p.stdout.find("Error:")
         res.trace = p.stdout[k:].splitlines()
+    elif re.search(r"Error: Temporal propert(y \S+ was|ies were) violated", p.stdout):
+        res.violation = re.search(r"Error: (Temporal propert[^\n.]*violated)", p.stdout).group(1)
+        k = p.stdout.find("Error:")
+        res.trace = p.stdout[k:].splitlines()
     elif "Error: Deadlock reached" in p.stdout:
         res.violation = "Deadlock reached"
         k = p.stdout.find("Error:")
